@@ -153,7 +153,19 @@ class Gen:
     def extra(self, depth, in_loop):
         """rarer constructs"""
         ind = lambda lines: ["    " + l for l in lines]
-        k = R.randrange(25)
+        k = R.randrange(28)
+        if k == 25:      # alias of a fresh list that is only mutated through the alias
+            v = self.newvar()
+            self.ints.append(v)
+            return ["ws = []", "vs = ws", "vs.append(%s)" % self.iexpr(), "%s = len(ws)" % v]
+        if k == 26:      # chained assignment of one fresh object
+            v = self.newvar()
+            self.ints.append(v)
+            return ["ps = qs = []", "ps.append(%s)" % self.iexpr(), "%s = len(qs) + len(ps)" % v]
+        if k == 27:      # a container of aliases
+            v = self.newvar()
+            self.ints.append(v)
+            return ["ms = []", "both = (ms, ys)", "for coll in both:"] + ind(["coll.append(%s)" % self.iexpr()]) + ["%s = len(ms)" % v]
         if k == 19:      # attribute of an object: store, then read
             return ["o.n = %s" % self.iexpr(), "emit(o.n + %s)" % self.iexpr()] if R.random() < 0.5 else ["emit(o.n)", "o.n %s= %s" % (R.choice(["+", "-", "*"]), self.iexpr())]
         if k == 20:      # dict built in a loop, then read
@@ -403,7 +415,7 @@ class ToFString(ast.NodeTransformer):
         return node
 
 
-_VOCAB = ("min", "max", "abs", "len", "pf", "d", "xs", "sum", "chk", "pair", "any", "all", "zip", "emit", "ys", "zs", "acc", "o", "r", "cm", "str", "sorted")
+_VOCAB = ("min", "max", "abs", "len", "pf", "d", "xs", "sum", "chk", "pair", "any", "all", "zip", "emit", "ys", "zs", "acc", "o", "r", "cm", "str", "sorted", "ws", "vs", "ps", "qs", "ms", "both", "coll")
 
 
 class ExtractValueHelper(ast.NodeTransformer):
